@@ -55,7 +55,8 @@ let () = read_lines_iter (fun line ->
   | "cfg" :: _ -> print_endline "E cfg"
   | ["probe"; _] -> print_endline "probe ok"
   | ["backoff"; mn; mx; n] ->
-    Printf.printf "backoff=%d\n" (int_of_n (duration (n_of_int (int_of_string mn)) (n_of_int (int_of_string mx)) (n_of_int (int_of_string n))))
+    (* bounds up to MaxInt64: decimal strings, not OCaml ints (63 bits) *)
+    Printf.printf "backoff=%s\n" (decimal_of_n (duration (pos_of_decimal mn) (pos_of_decimal mx) (n_of_int (int_of_string n))))
   | "backoff" :: _ -> print_endline "E backoff"
   | ["fail"; k; n] -> e := add_fault !e (n_of_int (int_of_string k)) (n_of_int (int_of_string n)); print_endline "ok"
   | [("hook" | "hookf") as h; k; n; wk; k2] ->
